@@ -26,10 +26,10 @@ def plan(ctx):
     k = max(1, ctx.ncpu // max(1, len(ctx.producers)))
     for v in ctx.producers:
         if ctx.tier == "quick":
-            cases = P.corpus_cases(ctx, v, n_files=12, n_w3=60, modes=2, max_file_bytes=15000, w3_size=0.7, w1_max_bytes=40000)
+            cases = P.corpus_cases(ctx, v, n_w9=0, n_files=12, n_w3=60, modes=2, max_file_bytes=15000, w3_size=0.7, w1_max_bytes=40000)
             cases += P.w9_cases(ctx, 240)
         else:
-            cases = P.corpus_cases(ctx, v, n_files=300, n_w3=1500, modes=40, max_file_bytes=60000, max_w4_bytes=100000)
+            cases = P.corpus_cases(ctx, v, n_w9=0, n_files=300, n_w3=1500, modes=40, max_file_bytes=60000, max_w4_bytes=100000)
             cases += P.w9_cases(ctx, 6000)
         shards.extend(P.split(ctx, v, cases, k, "C15:produce:", extra={"role": "produce"}))
     return shards
@@ -64,12 +64,14 @@ def run(shard):
     if shard["role"] == "produce":
         import corpus
         out = open(H._out.name + ".docs", "w")
+        import sys
+        ptag = H.PYTAG + ("-" + "O" * sys.flags.optimize if sys.flags.optimize else "")   # documents of a `python -O` producer are their own series
         for case, id_, code, text in corpus.iter_cases(shard):
             try:
                 cd = CodeData.from_code(code)
                 doc = cd.to_json_data()
                 ndoc = cd.normalize().to_json_data()
-                line = json.dumps({"id": id_, "producer": H.PYTAG, "doc": doc, "canon": md5(canon(doc)), "ncanon": md5(canon(ndoc)),
+                line = json.dumps({"id": id_, "producer": ptag, "doc": doc, "canon": md5(canon(doc)), "ncanon": md5(canon(ndoc)),
                                    "ndoc": ndoc if len(str(ndoc)) < 4000 else None,
                                    "case": corpus.replay_case(case) if case["k"] != "w9" else dict(case, id=id_),
                                    "nontrivial": case["k"] in ("w9", "w9src") or len(cd.blocks) > 1 or any(True for _ in cd)})
@@ -215,5 +217,10 @@ def offline(ctx, results):
 
 def replay_shard(v):
     c = dict(v["case"])
-    return {"interp": c.get("producer", v["interp"]), "role": "produce", "cases": [dict((k, x) for k, x in c.items() if k not in ("producer", "consumer"))],
-            "label": "replay", "tier": "quick", "seed": 0}
+    prod = c.get("producer", v["interp"])
+    flags = {}
+    if "-O" in prod:
+        prod, o = prod.split("-", 1)
+        flags = {"pyflags": ["-" + o]}
+    return dict(flags, **{"interp": prod, "role": "produce", "cases": [dict((k, x) for k, x in c.items() if k not in ("producer", "consumer"))],
+            "label": "replay", "tier": "quick", "seed": 0})
